@@ -258,6 +258,12 @@ impl Hooks {
         }
     }
 
+    pub fn finished(&self, who: Who) {
+        if let Some(s) = self.sched() {
+            s.finished(who);
+        }
+    }
+
     /// Start of a `Store::read`: managed iff a scheduler is installed and the caller is an actor.
     pub fn begin_read(&self) -> ReadCtx {
         let sched = match current_actor() {
